@@ -30,8 +30,8 @@ CLAIMED = {
     technique="Kani harnesses on the real allocator + Verus contracts on extracted bodies",
     design="2/C07"),
  "C08": dict(
-    text="Partial proof: built-in operator fixity table (real OpTable::get, concrete enumeration, Kani); the span algebra (Span::new/to/between/until/with_*/subspan/from_offset, Location::shift; full u32 domain, Kani) that parser actions and 'spans delimit the text' are built from; and Verus contracts on text extracted every run: the shift/reduce step of the operator-precedence re-parse (lower precedence or equal+both-left reduces, higher or equal+both-right shifts, equal precedence with different associativity is reported as ConflictingFixities), the final fold of reparse (operators still pending group to the right, in order, over all operands; inductive invariant + lemma; the closing assertion and unwraps cannot fire), shrink_hidden_spans against a specification of where each expression kind visibly ends (singleton block flattening included), the fold step of the BlockExpr grammar action (taken from grammar.lalrpop: `e; rest` becomes Do { bound: e, body: rest } spanning start of e .. end of rest), the layout algorithm's context-stack operations (Contexts::push/pop, Offside::new) layout_token, and three pieces of layout_next_token: the implicit `in` (emitted at the token that ended the binding; body block at the location of the binding), the explicit `in` closing a let/type/rec context (body block opened at the location of the enclosing context, separator flag cleared, OpenBlock queued) and the block separator (a token at the column of a block that already holds an expression gets one separator in front of it), and Tokenizer::block_comment with take_until (a block comment ends at the first `*/` behind its opening and scanning resumes right behind it; EOF error only if there is none; inductive invariants).",
-    note="No grouping theorem for reparse as a whole: the token loop that connects step and final fold, the Infixes iterator and error recovery are not under contract; `make_op` is uninterpreted. shrink unit: AST projected on spans and last sub-expressions, slice patterns desugared to length tests, Span::new's ordering contract assumed there (proved by the Kani harness). Of the layout algorithm only the implicit-in statements, the explicit-in arm, the separator arm, layout_token and the stack operations, of the tokenizer only block_comment/take_until (one-byte primitives bump/lookahead assumed, string operations of the doc-comment branch opaque), of the grammar only that one action are under contract; check_unindentation_limit is assumed not to change the stack. User-declared fixities overriding built-ins is only a structural Verus check (hash maps are intractable for CBMC).",
+    text="Partial proof: built-in operator fixity table (real OpTable::get, concrete enumeration, Kani); the span algebra (Span::new/to/between/until/with_*/subspan/from_offset, Location::shift; full u32 domain, Kani) that parser actions and 'spans delimit the text' are built from; and Verus contracts on text extracted every run: the shift/reduce step of the operator-precedence re-parse (lower precedence or equal+both-left reduces, higher or equal+both-right shifts, equal precedence with different associativity is reported as ConflictingFixities), the final fold of reparse (operators still pending group to the right, in order, over all operands; inductive invariant + lemma; the closing assertion and unwraps cannot fire), shrink_hidden_spans against a specification of where each expression kind visibly ends (singleton block flattening included), the fold step of the BlockExpr grammar action (taken from grammar.lalrpop: `e; rest` becomes Do { bound: e, body: rest } spanning start of e .. end of rest), the layout algorithm's context-stack operations (Contexts::push/pop, Offside::new) layout_token, and five pieces of layout_next_token: the implicit top-level block opened at the first token, the CloseBlock arm, the implicit `in` (emitted at the token that ended the binding; body block at the location of the binding), the explicit `in` closing a let/type/rec context (body block opened at the location of the enclosing context, separator flag cleared, OpenBlock queued) and the block separator (a token at the column of a block that already holds an expression gets one separator in front of it), and Tokenizer::block_comment with take_until (a block comment ends at the first `*/` behind its opening and scanning resumes right behind it; EOF error only if there is none; inductive invariants).",
+    note="No grouping theorem for reparse as a whole: the token loop that connects step and final fold, the Infixes iterator and error recovery are not under contract; `make_op` is uninterpreted. shrink unit: AST projected on spans and last sub-expressions, slice patterns desugared to length tests, Span::new's ordering contract assumed there (proved by the Kani harness). Of the layout algorithm only the top-level-block, CloseBlock, explicit-in and separator arms, the implicit-in statements, layout_token and the stack operations, of the tokenizer only block_comment/take_until (one-byte primitives bump/lookahead assumed, string operations of the doc-comment branch opaque), of the grammar only that one action are under contract; check_unindentation_limit is assumed not to change the stack. User-declared fixities overriding built-ins is only a structural Verus check (hash maps are intractable for CBMC).",
     technique="Kani harnesses (complete: loop-free or concrete) on compiled code + Verus contracts on functions, blocks, arms and a grammar action extracted from the parser sources",
     design="2/C08"),
  "C20": dict(
